@@ -13,6 +13,7 @@ use std::time::{Duration, Instant};
 
 pub struct Tier {
     pub name: &'static str,
+    pub dense_runs: usize,
     pub soak_runs: usize,
     pub runs: usize,
     pub batch: usize,
@@ -30,6 +31,7 @@ pub fn tier(name: &str) -> Tier {
     match name {
         "thorough" => Tier {
             name: "thorough",
+            dense_runs: env_usize("VERIF_DENSE_RUNS", 200_000),
             soak_runs: env_usize("VERIF_SOAK_RUNS", 320),
             runs: env_usize("VERIF_RUNS", 1_000_000),
             batch: 600,
@@ -40,6 +42,7 @@ pub fn tier(name: &str) -> Tier {
         },
         _ => Tier {
             name: "quick",
+            dense_runs: env_usize("VERIF_DENSE_RUNS", 16_000),
             soak_runs: env_usize("VERIF_SOAK_RUNS", 48),
             runs: env_usize("VERIF_RUNS", 100_000),
             batch: 400,
@@ -61,10 +64,20 @@ fn env_usize(k: &str, d: usize) -> usize {
 /// The job list of batch `k`: one cold-start job (block-table heavy flavour) followed by
 /// `batch` seeds of the main sequence.
 pub fn batch_jobs(base: u64, k: usize, batch: usize, total: usize) -> Vec<Job> {
+    batch_jobs_x(base, k, batch, total, false)
+}
+
+/// Dense-stage batches use their own seed family and run in the dense build.
+pub fn dense_base(base: u64) -> u64 {
+    mix(base, 0xDE45_E000)
+}
+
+pub fn batch_jobs_x(base: u64, k: usize, batch: usize, total: usize, dense: bool) -> Vec<Job> {
     let mut jobs = Vec::with_capacity(batch + 1);
     jobs.push(Job {
         seed: mix(base, 0xC01D_0000 + k as u64),
         flavor: "b".into(),
+        dense,
         ..Default::default()
     });
     let lo = k * batch;
@@ -74,6 +87,7 @@ pub fn batch_jobs(base: u64, k: usize, batch: usize, total: usize) -> Vec<Job> {
         jobs.push(Job {
             seed: splitmix64(&mut st),
             flavor: "n".into(),
+            dense,
             ..Default::default()
         });
     }
@@ -112,6 +126,8 @@ pub struct Agg {
     pub thread_exits_joined: u64,
     pub late_starts: u64,
     pub clock_jumps: u64,
+    pub edges: u64,
+    pub edge_offers: u64,
     pub cold_runs: u64,
     pub cold_init_by_thread: BTreeMap<i64, u64>,
     pub ext_blocked: u64,
@@ -175,6 +191,8 @@ impl Agg {
         self.thread_exits_joined += r.thread_exits_joined;
         self.late_starts += r.late_starts;
         self.clock_jumps += r.clock_jumps;
+        self.edges += r.edges;
+        self.edge_offers += r.edge_offers;
         if r.cold {
             self.cold_runs += 1;
             *self.cold_init_by_thread.entry(r.cold_init_thread).or_insert(0) += 1;
@@ -344,6 +362,8 @@ pub fn explore(
     trace_batches: &[usize],
     workers: usize,
     deadline: Instant,
+    dense: bool,
+    total_runs: usize,
 ) -> Explore {
     let list: Vec<usize> = match only {
         Some(l) => l.to_vec(),
@@ -366,7 +386,7 @@ pub fn explore(
         let list = list.clone();
         let _ = w;
         let sock = lanes.all();
-        let (batch, runs) = (t.batch, t.runs);
+        let (batch, runs) = (t.batch, total_runs);
         let trace_batches: Vec<usize> = trace_batches.to_vec();
         handles.push(std::thread::spawn(move || loop {
             let k = {
@@ -381,7 +401,7 @@ pub fn explore(
                 g.next += 1;
                 list[g.next - 1]
             };
-            let mut jobs = batch_jobs(base, k, batch, runs);
+            let mut jobs = batch_jobs_x(base, k, batch, runs, dense);
             if trace_batches.contains(&k) {
                 for j in jobs.iter_mut() {
                     j.want_trace = true;
@@ -482,7 +502,7 @@ pub fn check(tier_name: &str, base_seed: u64) -> Outcome {
             i += stride;
         }
     }
-    let ex = explore(&lanes, base_seed, &t, nbatches, None, &redo, t.workers, deadline);
+    let ex = explore(&lanes, base_seed, &t, nbatches, None, &redo, t.workers, deadline, false, t.runs);
     let explore_s = t0.elapsed().as_secs_f64();
     println!(
         "explored {} runs in {:.1}s ({} batches{})",
@@ -562,6 +582,42 @@ pub fn check(tier_name: &str, base_seed: u64) -> Outcome {
         s0.elapsed().as_secs_f64()
     );
 
+    // ---- dense stage: the same kind of runs in the dense build, where every basic-block
+    // edge of every target crate is a possible scheduling point (windows without hook sites)
+    let d0s = Instant::now();
+    let dense_available = std::path::Path::new(crate::pool::DENSE_EXE).exists();
+    let dense_nb = t.dense_runs.div_ceil(t.batch);
+    let dense_redo: Vec<usize> = (0..dense_nb.min(2)).collect();
+    let exd = if dense_available && t.dense_runs > 0 {
+        Some(explore(
+            &lanes,
+            dense_base(base_seed),
+            &t,
+            dense_nb,
+            None,
+            &dense_redo,
+            t.workers,
+            deadline + Duration::from_secs(600),
+            true,
+            t.dense_runs,
+        ))
+    } else {
+        None
+    };
+    let dense_wall = d0s.elapsed().as_secs_f64();
+    if let Some(d) = &exd {
+        println!(
+            "dense stage: {} runs, {} basic-block edges inside calls, {} offered to the scheduler, {} intra-call preemptions, {:.1}s",
+            d.agg.runs,
+            d.agg.edges,
+            d.agg.edge_offers,
+            d.agg.intra,
+            dense_wall
+        );
+    } else {
+        println!("dense stage: not run (dense build not available)");
+    }
+
     // ---- determinism self-check: re-execute whole batches in other worker processes,
     // on other reference lanes, and (second pass) with another worker count
     let mut harness_errors: Vec<String> = ex.agg.harness_errors.clone();
@@ -573,28 +629,83 @@ pub fn check(tier_name: &str, base_seed: u64) -> Outcome {
     let mut path_nondet_examples: Vec<String> = Vec::new();
     let mut extra_violating: Vec<(usize, usize, RunRecord)> = Vec::new();
     let d0 = Instant::now();
-    for (pass, workers) in [(0usize, t.workers), (1usize, t.redo_workers_alt)] {
-        let subset: Vec<usize> = if pass == 0 {
-            redo.clone()
-        } else {
-            redo.iter().copied().take((redo.len() / 2).max(1)).collect()
-        };
+    struct Pass<'a> {
+        pass: usize,
+        first: &'a Explore,
+        base: u64,
+        dense: bool,
+        total: usize,
+        nb: usize,
+        workers: usize,
+        subset: Vec<usize>,
+    }
+    let mut passes = vec![
+        Pass {
+            pass: 0,
+            first: &ex,
+            base: base_seed,
+            dense: false,
+            total: t.runs,
+            nb: nbatches,
+            workers: t.workers,
+            subset: redo.clone(),
+        },
+        Pass {
+            pass: 1,
+            first: &ex,
+            base: base_seed,
+            dense: false,
+            total: t.runs,
+            nb: nbatches,
+            workers: t.redo_workers_alt,
+            subset: redo.iter().copied().take((redo.len() / 2).max(1)).collect(),
+        },
+    ];
+    if let Some(d) = &exd {
+        passes.push(Pass {
+            pass: 2,
+            first: d,
+            base: dense_base(base_seed),
+            dense: true,
+            total: t.dense_runs,
+            nb: dense_nb,
+            workers: t.workers,
+            subset: dense_redo
+                .iter()
+                .copied()
+                .filter(|k| d.batch_hashes.contains_key(k))
+                .collect(),
+        });
+    }
+    for p in passes {
+        let Pass {
+            pass,
+            first,
+            base,
+            dense,
+            total,
+            nb,
+            workers,
+            subset,
+        } = p;
         if subset.is_empty() {
             continue;
         }
         let ex2 = explore(
             &lanes,
-            base_seed,
+            base,
             &t,
-            nbatches,
+            nb,
             Some(&subset),
             &subset,
             workers,
             deadline + Duration::from_secs(120),
+            dense,
+            total,
         );
         harness_errors.extend(ex2.agg.harness_errors.iter().cloned());
         for (k, h2) in &ex2.batch_hashes {
-            let h1 = match ex.batch_hashes.get(k) {
+            let h1 = match first.batch_hashes.get(k) {
                 Some(h) => h,
                 None => continue,
             };
@@ -608,7 +719,7 @@ pub fn check(tier_name: &str, base_seed: u64) -> Outcome {
                     }
                     redo_runs += 1;
                     if a.log != b.log || a.sched != b.sched {
-                        let viol1 = ex.agg.violating.iter().any(|(bk, bi, _)| bk == k && *bi == i);
+                        let viol1 = first.agg.violating.iter().any(|(bk, bi, _)| bk == k && *bi == i);
                         let viol2 = ex2.agg.violating.iter().any(|(bk, bi, _)| bk == k && *bi == i);
                         if viol1 || viol2 {
                             // the library misbehaved in at least one execution: reported as
@@ -638,8 +749,10 @@ pub fn check(tier_name: &str, base_seed: u64) -> Outcome {
                 }
             }
         }
-        for v in ex2.agg.violating {
-            extra_violating.push(v);
+        if !dense {
+            for v in ex2.agg.violating {
+                extra_violating.push(v);
+            }
         }
     }
     let determinism_s = d0.elapsed().as_secs_f64();
@@ -720,6 +833,53 @@ pub fn check(tier_name: &str, base_seed: u64) -> Outcome {
                     "seed={} {} class={} {}: did not reproduce 3/3 from its replay file",
                     rec.seed, rec.flavor, v0.class, v0.request
                 ));
+            }
+        }
+    }
+    if let Some(d) = &exd {
+        harness_errors.extend(d.agg.harness_errors.iter().cloned());
+        let mut dv = d.agg.violating.clone();
+        dv.sort_by_key(|(k, i, _)| (*k, *i));
+        if !dv.is_empty() {
+            println!(
+                "dense stage: runs with at least one mismatch: {} of {}",
+                dv.len(),
+                d.agg.runs
+            );
+        }
+        for (k, i, rec) in &dv {
+            if violations_reported >= max_report {
+                break;
+            }
+            let v0 = &rec.violations[0];
+            let sig = format!("{}|{}", v0.class, v0.request);
+            if let Some(kf) = known.iter().find(|kf| kf.matches(v0)) {
+                if seen_signatures.insert(format!("known:{}", kf.id)) {
+                    println!("KNOWN-FINDING: property=C18 {}", kf.text);
+                    known_printed += 1;
+                }
+                continue;
+            }
+            if !seen_signatures.insert(sig) {
+                continue;
+            }
+            let jobs = batch_jobs_x(dense_base(base_seed), *k, t.batch, t.dense_runs, true);
+            let prefix: Vec<Job> = jobs[..*i].to_vec();
+            let failing = jobs[*i].clone();
+            println!(
+                "violation candidate (dense build): batch {} job {} seed={} {} class={} {}",
+                k, i, rec.seed, rec.flavor, v0.class, v0.request
+            );
+            match minimise::minimise_and_write(&lanes.all(), &prefix, &failing, rec, nondet(rec)) {
+                Some(path) => {
+                    println!("VIOLATION property=C18 replay={}", path);
+                    replay_paths.push(path);
+                    violations_reported += 1;
+                }
+                None => unconfirmed.push(format!(
+                    "dense seed={} {} class={} {}: did not reproduce 3/3 from its replay file",
+                    rec.seed, rec.flavor, v0.class, v0.request
+                )),
             }
         }
     }
@@ -887,6 +1047,7 @@ pub fn check(tier_name: &str, base_seed: u64) -> Outcome {
                 "runs_reexecuted": redo_runs,
                 "batches": redo.len(),
                 "worker_counts": [t.workers, t.redo_workers_alt],
+                "includes_dense_build_batches": exd.is_some(),
                 "log_hash_mismatches_explained_by_violation": redo_mismatch_outcome,
                 "skipped_runs_with_externally_blocked_thread": redo_nondet_skipped,
                 "library_path_nondeterminism_same_outcomes": path_nondeterminism,
@@ -900,6 +1061,20 @@ pub fn check(tier_name: &str, base_seed: u64) -> Outcome {
                 "examples": a.path_impure_examples,
             },
             "runs_on_long_lived_caller_threads": a.pooled_runs,
+            "dense_stage": match &exd {
+                Some(d) => json!({
+                    "what": "the same kind of seeded runs executed in a second build of the harness in which LLVM SanitizerCoverage instruments every basic-block edge of every target crate (regexml, icu, ahash, and any code a change adds); inside library calls one edge in 12 (deterministic per-thread sampling, first 30000 edges of a call) is offered to the scheduler as a preemption point",
+                    "runs": d.agg.runs,
+                    "call_outcomes_compared_with_reference": d.agg.compared,
+                    "basic_block_edges_inside_calls": d.agg.edges,
+                    "edges_offered_to_scheduler": d.agg.edge_offers,
+                    "intra_call_preemptions": d.agg.intra,
+                    "distinct_interleavings_with_intra_call_preemption": d.agg.distinct_ileave_intra.len(),
+                    "inconclusive": d.agg.inconclusive,
+                    "wall_s": dense_wall,
+                }),
+                None => json!({"stage": "not run (dense build not available)"}),
+            },
             "soak_stage": {
                 "what": "single-thread runs on 4 objects each: probe call A, then d-1 identical calls B, then A again, d in {255,256,257,4096,32768,65534..65537}; every call compared with the reference",
                 "runs": soak_runs_done,
